@@ -182,6 +182,7 @@ struct World : SpawnHandler {
   void UpdateCleanState(const InvRecord& r);
   void CheckMinimality(const InvRecord& r);
   void CheckRecordedDeps(const InvRecord& r);
+  void CheckLogTimes(const InvRecord& r);
 
   // oracles (oracles.cc)
   void CheckAll(InvRecord& r);
